@@ -550,6 +550,12 @@ fn session(kind: &'static str) -> (String, String) {
         s.set_read_timeout(Some(std::time::Duration::from_millis(1500))).unwrap();
         let mut hdr = [0u8; 8]; s.read_exact(&mut hdr).unwrap();
         if kind == "garbage-at-start" { s.write_all(&frame_bytes(&AMQPFrame::Method(0, AMQPClass::Connection(connection::AMQPMethod::OpenOk(connection::OpenOk { known_hosts: "".into() }))))).unwrap(); return mname(&read_frame(&mut s)); }
+        if kind == "other-locales" || kind == "other-mechanisms" {
+            // the server offers something else than the client is configured for: the error names what was on offer and what was asked for
+            let (mech, loc) = if kind == "other-locales" { ("PLAIN AMQPLAIN", "de_DE fr_FR") } else { ("EXTERNAL GSSAPI", "en_US") };
+            s.write_all(&frame_bytes(&AMQPFrame::Method(0, AMQPClass::Connection(connection::AMQPMethod::Start(connection::Start { version_major: 0, version_minor: 9, server_properties: Default::default(), mechanisms: mech.into(), locales: loc.into() }))))).unwrap();
+            return mname(&read_frame(&mut s));
+        }
         s.write_all(&frame_bytes(&start_frame())).unwrap();
         let _ = read_frame(&mut s);   // StartOk
         match kind {
@@ -614,6 +620,8 @@ fn verif_replay_c16_battery() {
         ("normal", "Ok", "Connection.TuneOk+Connection.Open+Connection.Close"),
         ("close-after-open", r#"ServerClosedConnection { code: 530, message: "no vhost" }"#, "Connection.TuneOk+Connection.Open+Connection.CloseOk"),
         ("secure-challenge", "SaslSecureNotSupported", "none"),
+        ("other-locales", r#"UnsupportedLocale { available: "de_DE fr_FR", requested: "en_US" }"#, "none"),
+        ("other-mechanisms", r#"UnsupportedAuthMechanism { available: "EXTERNAL GSSAPI", requested: "PLAIN" }"#, "none"),
         ("tune-too-small", "FrameMaxTooSmall", "none"),
         ("garbage-at-start", "FrameUnexpected", "none"),
         ("garbage-after-open", "FrameUnexpected", "none"),
